@@ -55,8 +55,11 @@ impl Storage {
         // The name becomes a directory below base_path, so it must be one
         // plain path component: "..", separators or an absolute path would
         // open or create an installation somewhere else
+        // ("foo/", "foo//" and "foo/." also parse to the single component
+        // "foo": the component has to be the whole name, otherwise several
+        // spellings open several Installation objects on one directory)
         let mut components = std::path::Path::new(name).components();
-        if !matches!(components.next(), Some(std::path::Component::Normal(_)))
+        if !matches!(components.next(), Some(std::path::Component::Normal(c)) if c == std::ffi::OsStr::new(name))
             || components.next().is_some()
         {
             return Err(crate::StorageError::Installation(format!(
